@@ -131,8 +131,8 @@ def outcome_diff(ref, o):
 
 
 FMT_CHANNELS = {
-    "md": ["str", "bytes", "bytesio", "path", "file", "bytes_implicit", "pathlike", "rawfile", "spooled"],
-    "csv": ["str", "bytes", "bytesio", "path", "file", "bytes_implicit", "rawfile", "spooled"],
+    "md": ["str", "bytes", "bytesio", "path", "file", "bytes_implicit", "pathlike", "rawfile", "spooled", "stringio", "textfile"],
+    "csv": ["str", "bytes", "bytesio", "path", "file", "bytes_implicit", "rawfile", "spooled", "stringio", "textfile"],
     "xlsx": ["bytes", "bytesio", "path", "file", "bytes_implicit", "pathlike", "rawfile", "spooled"],
     "xlsm": ["bytes", "path", "bytesio"],
     "xls": ["bytes", "bytesio", "path", "file", "bytes_implicit", "rawfile", "spooled"],
